@@ -11,7 +11,7 @@
    rx/tx counters, handshake state and indices, lastTimestamp, lastInitiation-
    Consumption, lastSentHandshake, staged packets). *)
 From Coq Require Import Sorting.Sorted.
-From WG Require Import Base.Prelude Gen.Constants Tai64n.Model Tai64n.Proofs HsGate.Model HsGate.Proofs.
+From WG Require Import Base.Prelude Gen.Constants Tai64n.Model Tai64n.Proofs HsGate.Model HsGate.Spec HsGate.Proofs.
 Local Open Scope N_scope.
 
 Definition reach (cfg : list (N * N * N)) (now0 : N) (evs : list event) : state :=
@@ -19,7 +19,7 @@ Definition reach (cfg : list (N * N * N)) (now0 : N) (evs : list event) : state 
 
 (* The numbers the property text and the design name, as the code has them now. *)
 Theorem C06_constants :
-  HandshakeInitationRate * 50 = ns_per_s /\ RekeyTimeout = 5 * ns_per_s /\
+  HandshakeInitationRate * 50 = ns_per_s /\ HandshakeInitationRate = prop_rate /\ RekeyTimeout = 5 * ns_per_s /\
   whitener = 2^24 /\ tai_whitenerMask = 2^24 - 1 /\ whitener <= RekeyTimeout /\
   MessageInitiationSize = 148 /\ MessageResponseSize = 92 /\
   smac2 KInit = 132 /\ smac1 KInit = 116 /\ smac2 KResp = 76 /\ smac1 KResp = 60 /\
